@@ -53,11 +53,15 @@ MIXED = [acc("ethos-u55-128"), acc("ethos-u65-256"), u55_mode("ethos-u55-64", "E
          acc("ethos-u55-256", "--cpu-tensor-alignment", "64"), u55_mode("ethos-u55-128", "Ethos_U55_Deep_Embedded", "Sram_Only"),
          dedicated("ethos-u65-512"), acc("ethos-u55-32"), acc("ethos-u65-512", "--optimise", "Size")]
 
+# cascades under both allocators that matter for a mis-sized live range (Greedy packs the next buffer inside, HillClimb puts it last)
+NARROW = [acc("ethos-u55-128", "--optimise", "Size", "--tensor-allocator", "Greedy"), acc("ethos-u55-128", "--optimise", "Size", "--tensor-allocator", "HillClimb"),
+          acc("ethos-u55-64", "--optimise", "Size", "--tensor-allocator", "Greedy"), acc("ethos-u65-256", "--optimise", "Size", "--tensor-allocator", "HillClimb"),
+          acc("ethos-u55-256", "--optimise", "Size", "--tensor-allocator", "LinearAlloc")]
 # pattern -> (instances in the quick tier, configuration templates)
 TABLE = {
     "multi_input": (3, MIXED), "input_npu_and_cpu": (6, MIXED), "residual": (3, FAST), "lut_reuse": (4, LUT),
     "deep_slices": (3, TWO_CORE), "fc1_after_conv": (4, TWO_CORE), "nobias": (3, ROTATE), "casc_s2_valid": (4, CASCADE),
-    "two_npu_islands": (3, MIXED), "concat_slices": (3, ROTATE), "shared_weights": (2, ROTATE), "shared_weights_deep": (6, ROTATE), "big_fm_u65": (3, FAST),
+    "two_npu_islands": (3, MIXED), "concat_slices": (3, ROTATE), "shared_weights": (2, ROTATE), "shared_weights_deep": (6, ROTATE), "narrowing_cascade": (12, NARROW), "big_fm_u65": (3, FAST),
     "avgpool_chain": (2, ROTATE), "minmax_lrelu": (2, ROTATE), "reshape_fork": (4, MIXED), "widen_ew": (3, ROTATE),
     "lut_mixed": (18, LUT), "shape_out": (42, MIXED), "transpose_perm": (24, ROTATE), "ew_fork": (20, MIXED),
     "fc1_two_core": (12, TWO_CORE), "near_scale": (15, ROTATE),
@@ -69,7 +73,7 @@ TABLE = {
 }
 DEFAULT = (3, ROTATE)
 # families built only by the sweep (not drawn by netgen.pattern_net at random, so the random profiles keep their networks)
-SWEEP_ONLY = ["shared_weights_deep"]
+SWEEP_ONLY = ["shared_weights_deep", "narrowing_cascade"]
 
 
 def jobs(thorough=False):
@@ -90,7 +94,9 @@ def config(rng, profile, index):
     opts = list(templates[index % len(templates)])
     if "--optimise" not in opts:
         opts += ["--optimise", rng.choice(["Performance", "Performance", "Size"])]
-    opts += ["--tensor-allocator", rng.choice(["HillClimb", "HillClimb", "Greedy", "LinearAlloc"])]
+    alloc = rng.choice(["HillClimb", "HillClimb", "Greedy", "LinearAlloc"])     # drawn in any case: later draws keep their values
+    if "--tensor-allocator" not in opts:
+        opts += ["--tensor-allocator", alloc]
     if "--cpu-tensor-alignment" not in opts and rng.random() < 0.25:
         opts += ["--cpu-tensor-alignment", str(rng.choice([16, 32, 64, 128, 256]))]
     return opts
